@@ -70,6 +70,11 @@ unsigned int get_rex_prefix(struct instr *all_instr, struct operand *m,
   all_instr->hex.is_w0 = true;
   if ((m->reg & MODE_MASK) < reg64)
     all_instr->hex.is_w0 = false;
+  // with a memory operand VEX.W follows the register operand's size, not the
+  // size of the address registers
+  if (all_instr->mem_disp && !(r->reg & reg_none) &&
+      (r->reg & MODE_MASK) != mmx64)
+    all_instr->hex.is_w0 = (r->reg & MODE_MASK) >= reg64;
   if ((m->reg & MODE_MASK) == mmx64 || (r->reg & MODE_MASK) == mmx64) {
     unsigned int vector_rex = get_vector_rex_prefix(all_instr, m->reg, r->reg);
     // an extended (r8-r15) index register needs REX.X / VEX.X
